@@ -62,15 +62,21 @@ def waiter_ops(beh):
     register = st.tuples(st.just('register'), wreq, beh, st.sampled_from([False, False, True]),
                          st.sampled_from([False, False, False, True])).map(lambda t: list(t[:4]) + [t[4] and not t[3]])
     advance = st.tuples(st.just('advance'), st.sampled_from([0, 0, 1, 2.5])).map(list)
-    return st.one_of(add, add, add, reserve, reserve, release, release, release, register, register, register,
-                     register, advance, advance)
+    # the manager moves to a second environment only when no availability check is pending (right after an advance)
+    move = st.just(['move'])
+    return st.one_of(*([add] * 6 + [reserve] * 4 + [release] * 6 + [register] * 8 + [advance] * 4 + [move]))
 
 
 def waiter_cases(max_ops, consume_only):
     beh = consume_behaviour() if consume_only else behaviour()
     tb = st.tuples(st.sampled_from(['random', 'fifo', 'lifo', 'const']), st.integers(0, 10 ** 6)).map(list)
     pre = st.lists(st.tuples(st.just('add'), wname, st.sampled_from([1, 1, 2, 3])).map(list), min_size=0, max_size=3)
-    return st.builds(lambda t, p, ops: {'tb': t, 'ops': p + ops + [['advance', 1]]}, tb, pre,
+    def expand(ops):
+        out = []
+        for o in ops:
+            out += [['advance', 0], ['reinit']] if o == ['move'] else [o]
+        return out
+    return st.builds(lambda t, p, ops: {'tb': t, 'ops': p + expand(ops) + [['advance', 1]]}, tb, pre,
                      st.lists(waiter_ops(beh), min_size=6, max_size=max_ops))
 
 
